@@ -874,6 +874,9 @@ func (it *Interp) construct(pkg, sym string, args []any) (any, *ErrM) {
 		return &o, nil
 	case "NewVal":
 		return it.mk(pkg, "NewVal", args), nil
+	case "NewTouch":
+		o := it.mk(pkg, "NewTouch", args)
+		return &o, nil
 	case "NewErr":
 		if len(args) > 0 {
 			if s, ok := args[0].(string); ok && s == "fail" {
